@@ -397,11 +397,13 @@ def roundtrip(xml_bytes, include_dirs=(), identical=True):
         if d:
             k = sorted(d)[0]
             return 'rewrite loses or changes %d item(s) of the original, e.g. %s: %r -> %r' % (len(d), k, d[k][0], d[k][1])
-    if _doc_model(b1) != _doc_model(b2):
-        return 'independent reader sees different documents after the second write'
-    r = first_diff(ast_view(ns1), ast_view(ns2))
-    if r:
-        return 'models of first and second read differ: ' + r
+    # b1 == b2 here, so the independent reader trivially sees the same document twice; what is left
+    # to compare is the model read from the input with the model read from the rewrite (only
+    # informative when the rewrite is not byte-identical to the input)
+    if b1 != xml_bytes:
+        r = first_diff(ast_view(ns1), ast_view(ns2))
+        if r:
+            return 'models of first and second read differ: ' + r
     return None
 
 
